@@ -1,9 +1,9 @@
 SPECIFICATION LiveSpec
 CONSTANTS
   Defects = {}
-  StageSet = {"Inc", "Even", "Dup", "Rep", "Err3", "BSum2"}
-  MaxK = 2
-  InsKind = "t"
+  StageSet = {"Dup", "Err3", "BSum2"}
+  MaxK = 3
+  InsKind = "q"
 CHECK_DEADLOCK FALSE
 INVARIANTS NoEmitWithoutDemand Conservation SinkTerminalOnce CompleteOncePerLink CompletedCorrectly ErrorCorrectly BufBound NoStuck
 PROPERTIES Terminates
